@@ -651,6 +651,27 @@ class Discharger:
                 return "infeasible", None
         elif r == "unsat":
             return "infeasible", None
+        if r == "unknown" and pr.inputs:
+            # non-linear path condition the solvers cannot settle as a whole: pin the declared inputs (data,
+            # uncertainties, start values ...) to simple values and let the solver find the remaining (backend-fresh,
+            # root) variables -- a much smaller problem.  Any model found is a genuine sample of the path.
+            import random
+
+            rnd = random.Random(len(pr.pc) * 7919 + len(pr.inputs))
+            pool = [1, 2, 3, -1, -2, z3.RealVal("1/2"), z3.RealVal("3/2"), z3.RealVal("-1/2"), 5, z3.RealVal("1/4"), 4, -3]
+            names = sorted(pr.inputs)
+            for attempt in range(8):
+                pins = []
+                for i, nm in enumerate(names):
+                    t = pr.inputs[nm]
+                    if t.sort().kind() != z3.Z3_REAL_SORT:
+                        continue
+                    if attempt % 2 == 1 and rnd.random() < 0.3:
+                        continue  # leave some inputs free
+                    pins.append(t == pool[(i * 5 + attempt * 3 + rnd.randrange(len(pool))) % len(pool)])
+                r2, m2 = self.solver.check(pr.pc + pr.divs + extra + pins, min(self.ob_timeout_ms, 6000), want_model=True, purpose="sample", external_s=0)
+                if r2 == "sat":
+                    return "sat", m2
         return r, m
 
     def decide(self, pr, ob):
@@ -728,6 +749,15 @@ class Discharger:
                 res.update(status="discharged", solver="portfolio(uncut)", time_s=time.time() - t0)
                 return res
             if r0 == "sat":
+                if ob.kind == "eq" and not uf:
+                    # prefer a counterexample whose effect is far above the replay tolerance (e.g. a branch taken only
+                    # for nearly-equal values still has inputs with a visible difference)
+                    l0, r0_ = z3.substitute(ob.lhs, *inv), z3.substitute(ob.rhs, *inv)
+                    mag = z3.If(r0_ >= 0, r0_, -r0_) + 1
+                    big = z3.Or(l0 - r0_ > mag * z3.RealVal("1/100"), r0_ - l0 > mag * z3.RealVal("1/100"))
+                    r1, m1 = self.solver.check(base0 + ex0 + [big], max(self.ob_timeout_ms // 2, 3000), want_model=True)
+                    if r1 == "sat":
+                        m0 = m1
                 res.update(status="refuted", time_s=time.time() - t0, solver="portfolio(uncut)")
                 res["model"] = model_inputs(m0, pr.inputs)
                 res["model_all"] = _all_vars(m0)
